@@ -83,6 +83,18 @@ func (p *Prog) aliasRoots(v ssa.Value, depth int, seen map[ssa.Value]bool, out *
 		case *ssa.FieldAddr, *ssa.IndexAddr:
 			// a reference loaded from inside another object: same roots as that object
 			p.aliasRoots(a, depth, seen, out)
+			// ... and, for a local struct, whatever was stored into it (the struct value a call
+			// returned carries the pointers the callee put there)
+			if fa, ok := a.(*ssa.FieldAddr); ok && isRefLike(x.Type()) {
+				if al, ok := rootCell(fa.X).(*ssa.Alloc); ok {
+					for _, st := range cellWrites(al) {
+						p.aliasRoots(st.Val, depth, seen, out)
+					}
+					for _, st := range fieldWrites(al, fa.Field) {
+						p.aliasRoots(st.Val, depth, seen, out)
+					}
+				}
+			}
 		}
 	case *ssa.Parameter:
 		if depth > 0 {
@@ -125,6 +137,11 @@ func (p *Prog) aliasCall(cl *ssa.Call, idx, depth int, seen map[ssa.Value]bool, 
 			p.aliasRoots(cl.Call.Args[0], depth, seen, out)
 			*out = append(*out, aliasRoot{"fresh", cl})
 		}
+		return
+	}
+	if cl.Call.IsInvoke() {
+		// what an implementation of an interface hands out is its own storage
+		*out = append(*out, aliasRoot{"foreign", cl})
 		return
 	}
 	g := cl.Common().StaticCallee()
@@ -197,7 +214,7 @@ func ruleC16Globals(c *Checker) {
 			}
 			nStores++
 			var roots []aliasRoot
-			p.aliasRoots(addr, 2, map[ssa.Value]bool{}, &roots)
+			p.aliasRoots(addr, 6, map[ssa.Value]bool{}, &roots)
 			var globals []string
 			for _, r := range roots {
 				if r.Kind == "global" {
